@@ -16,6 +16,8 @@ Lemma panic_visit_ident id x : panic (visit_ident id x) = panic x.
 Proof. unfold visit_ident. destruct (live_now x); reflexivity. Qed.
 Lemma panic_visit_e e x : panic (visit_e e x) = panic x.
 Proof. destruct e; cbn [visit_e]; rewrite ?panic_visit_lit, ?panic_visit_ident; reflexivity. Qed.
+Lemma panic_visit_oe o x : panic (visit_oe o x) = panic x.
+Proof. destruct o; cbn [visit_oe]; rewrite ?panic_visit_e; reflexivity. Qed.
 Lemma panic_visit_cond c x : panic (visit_cond c x) = panic x.
 Proof. destruct c; cbn [visit_cond]; rewrite ?panic_visit_lit, ?panic_visit_e; reflexivity. Qed.
 Lemma panic_orb_mark s x : panic (orb_mark s x) = panic x.
@@ -215,7 +217,7 @@ Proof.
     apply quiet_visit_if_else; [apply quiet_orb_mark; exact IHa | apply quiet_orb_mark; exact IHb | exact Hx].
   - intros p c b IHb x Hx. cbn [an]. apply quiet_visit_while; [exact IHb | exact Hx].
   - intros p b IHb c x Hx. cbn [an]. apply quiet_visit_do_while; [exact IHb | exact Hx].
-  - intros p c b IHb x Hx. cbn [an]. apply quiet_visit_for; [exact IHb | exact Hx].
+  - intros p i c u b IHb x Hx. cbn [an]. apply quiet_visit_for; [exact IHb | rewrite !panic_visit_oe; exact Hx].
   - intros p b IHb x Hx. cbn [an]. apply quiet_visit_for_in; [exact IHb | exact Hx].
   - intros p b IHb x Hx. cbn [an]. apply quiet_visit_for_in; [exact IHb | exact Hx].
   - intros p g fp pb hb IHh b IHb x Hx. cbn [an]. apply quiet_visit_for_in; [exact IHb|]. apply quiet_for_head; [exact IHh | exact Hx].
